@@ -30,7 +30,8 @@
 (*           unknown event type, "", "-1", 2^64, non-digits, an address of *)
 (*           the wrong length, odd-length or non-hex data, an empty list   *)
 (*           element, a point not on the curve / not in G2 / not in        *)
-(*           canonical compressed form, a key not on the curve.  The       *)
+(*           canonical compressed form, a key not on the curve, seeded     *)
+(*           garbage starting with a character of no grammar.  The         *)
 (*           decoder must report an error.                                 *)
 (* A decoder outcome outside Allowed(EvDen(ev, h)) is a violation:         *)
 (* "mis-decoded" = a value other than the denoted one, "malformed          *)
@@ -62,7 +63,7 @@ Cls(f, lenient) == IF f = "canon" THEN "canon" ELSE IF f \in lenient THEN "len" 
 NumClass(f, t) ==
     IF f = "neg" /\ t = "Z0" THEN "len"      \* "-0" still says zero
     ELSE Cls(f, {"leadzero", "plus", "space", "trailspace", "dotzero", "hexpfx"})
-        \* bad: empty, neg, overflow, overflowbig, nondigit, underscore
+        \* bad: empty, neg, overflow, overflowbig, nondigit, underscore, garbage
 AddrClass(f) == Cls(f, {"lower", "upper", "noprefix", "prefixX", "badsum", "space"})
         \* bad: short, long, odd, empty, nonhex
 HexClass(f) == Cls(f, {"upper", "prefixX", "noprefix", "padzero", "space"})
